@@ -517,9 +517,136 @@ impl Space for Configs {
     }
 }
 
+/// Chains of nested includes: main includes c1, c1 includes c2, ... to depth d; the last file
+/// either ends the chain, includes a missing file, or includes the first again would be a cycle
+/// (not generated). The graph and symbols must equal those of the inlined text.
+pub struct Chains {
+    pub max_depth: usize,
+}
+
+impl Chains {
+    fn run(&self, depth: usize, tail: u8, file_entry: bool, ctx: &mut Ctx) {
+        let case = json!({"depth": depth, "tail": tail, "file_entry": file_entry, "witness": format!("chain depth={} tail={} entry={}", depth, ["end", "missing", "stdgates"][tail as usize], if file_entry { "file" } else { "string" })});
+        if !ctx.begin(|| case.clone()) {
+            return;
+        }
+        let wit = case["witness"].as_str().unwrap_or("").to_string();
+        let root = work_root().join(format!("chain{}_{}_{}", depth, tail, file_entry as u8));
+        let _ = std::fs::remove_dir_all(&root);
+        if std::fs::create_dir_all(root.join("d1")).is_err() {
+            return;
+        }
+        // c_i: include of c_{i+1} first, then its own declaration
+        let mut inlined = String::new();
+        for i in (1..=depth).rev() {
+            let next = if i < depth {
+                format!("include \"c{}.inc\";\n", i + 1)
+            } else {
+                match tail {
+                    1 => "include \"nosuch.inc\";\n".to_string(),
+                    2 => "include \"stdgates.inc\";\n".to_string(),
+                    _ => String::new(),
+                }
+            };
+            let text = format!("{}int v{} = {};\n", next, i, i);
+            if std::fs::write(root.join("d1").join(format!("c{}.inc", i)), &text).is_err() {
+                return;
+            }
+        }
+        if tail == 2 {
+            inlined.push_str("include \"stdgates.inc\";\n");
+        }
+        for i in (1..=depth).rev() {
+            inlined.push_str(&format!("int v{} = {};\n", i, i));
+        }
+        let main_text = format!("include \"c1.inc\";\nint s = v{};\nint t = v1;\n", depth);
+        inlined.push_str(&format!("int s = v{};\nint t = v1;\n", depth));
+        let main_path = root.join("main.qasm");
+        let _ = std::fs::write(&main_path, &main_text);
+        let search = vec![root.join("d1")];
+        let mt = main_text.clone();
+        let observed = catch(move || {
+            if file_entry {
+                let res = parse_source_file_with_search(&main_path, Some(&search));
+                (res.program().clone(), all_symbols(res.symbol_table()), { let mut l = Vec::new(); flatten(res.semantic_errors(), &mut l); l }, res.any_syntax_errors())
+            } else {
+                let res = parse_source_string_with_path_search(mt.as_str(), Some("main.qasm"), Some(&search));
+                (res.program().clone(), all_symbols(res.symbol_table()), { let mut l = Vec::new(); flatten(res.semantic_errors(), &mut l); l }, res.any_syntax_errors())
+            }
+        });
+        let _ = std::fs::remove_dir_all(&root);
+        let _ = std::fs::remove_dir(work_root());
+        let mut fail = |ctx: &mut Ctx, rule: &str, locus: &str, detail: String| ctx.fail(Failure { rule: rule.into(), witness: wit.clone(), locus: locus.into(), detail, case: case.clone() });
+        let (program, symbols, lists, any_syn) = match observed {
+            Ok(x) => x,
+            Err(p) => {
+                fail(ctx, "include_no_panic", &p.locus(), format!("analysis of an include chain of depth {} panicked: {}", depth, p.message));
+                return;
+            }
+        };
+        let inl = inlined.clone();
+        let reference = catch(move || {
+            let res = parse_source_string(inl.as_str(), Some("main.qasm"));
+            (res.program().clone(), all_symbols(res.symbol_table()), res.semantic_errors().iter().map(|e| kind_name(e.kind())).collect::<Vec<_>>())
+        });
+        let (rprogram, rsymbols, mut rkinds) = match reference {
+            Ok(x) => x,
+            Err(_) => return,
+        };
+        ctx.outcome(fnv_mix(depth as u64, program.stmts().len() as u64));
+        if depth >= 2 {
+            ctx.mark_nontrivial(fnv_str(&wit));
+        }
+        if any_syn {
+            fail(ctx, "include_equiv", "chain | syntax diagnostics", "a chain without syntax faults reports syntax errors".into());
+            return;
+        }
+        if program != rprogram {
+            fail(ctx, "include_equiv", "chain | graph differs from the inlined program", format!("{} statements with includes, {} inlined", program.stmts().len(), rprogram.stmts().len()));
+        }
+        if symbols != rsymbols {
+            fail(ctx, "include_equiv", "chain | symbols differ from the inlined program", format!("{} symbols with includes, {} inlined", symbols.len(), rsymbols.len()));
+        }
+        let mut got: Vec<String> = lists.iter().flat_map(|(_, k)| k.iter().cloned()).map(|k| if matches!(k.as_str(), "IOError" | "PermissionDenied" | "IsADirectory" | "InvalidFilename") { "FileNotFound".to_string() } else { k }).collect();
+        if tail == 1 {
+            rkinds.push("FileNotFound".into());
+        }
+        got.sort();
+        rkinds.sort();
+        if got != rkinds {
+            fail(ctx, "include_diagnostics", "chain | diagnostic multiset", format!("diagnostics {:?}, expected {:?}", got, rkinds));
+        }
+    }
+}
+
+impl Space for Chains {
+    fn name(&self) -> String {
+        format!("F-CHAIN/depth<={}", self.max_depth)
+    }
+    fn describe(&self) -> Value {
+        json!({"space": "F-CHAIN", "depths": format!("1..={}", self.max_depth), "tails": ["end", "include of a missing file", "include of stdgates.inc"], "entry_points": 2})
+    }
+    fn num_blocks(&self) -> u64 {
+        self.max_depth as u64
+    }
+    fn run_block(&self, block: u64, ctx: &mut Ctx) {
+        for tail in 0..3u8 {
+            for fe in [false, true] {
+                self.run(block as usize + 1, tail, fe, ctx);
+            }
+        }
+    }
+    fn replay(&self, case: &Value, ctx: &mut Ctx) {
+        self.run(case["depth"].as_u64().unwrap_or(1) as usize, case["tail"].as_u64().unwrap_or(0) as u8, case["file_entry"].as_bool().unwrap_or(false), ctx);
+    }
+    fn block_timeout_s(&self) -> u64 {
+        120
+    }
+}
+
 pub fn spaces(tier: Tier, _seed: u64) -> Vec<Box<dyn Space>> {
     match tier {
-        Tier::Quick => vec![Box::new(Configs { ndirs: 2, nfiles: 2 }), Box::new(Configs { ndirs: 2, nfiles: 3 })],
-        Tier::Thorough => vec![Box::new(Configs { ndirs: 2, nfiles: 2 }), Box::new(Configs { ndirs: 3, nfiles: 3 })],
+        Tier::Quick => vec![Box::new(Configs { ndirs: 2, nfiles: 2 }), Box::new(Configs { ndirs: 2, nfiles: 3 }), Box::new(Chains { max_depth: 20 })],
+        Tier::Thorough => vec![Box::new(Configs { ndirs: 2, nfiles: 2 }), Box::new(Configs { ndirs: 3, nfiles: 3 }), Box::new(Chains { max_depth: 70 })],
     }
 }
